@@ -299,6 +299,165 @@ theorem tramp_body_tail (fuel : Nat) (cfg : Cfg) (h : Nat) (f : Func) (dflts : L
   · intro l hl hgt
     simp [hl, hgt]
 
+/-! ### `unwrap_value` is never applied to a TailCall: the outcome "tail escaped" is unreachable -/
+
+/-- the outcome "the interpreter applied `unwrap_value` to a TailCall" -/
+def Res.isEsc : Res → Bool
+  | .stuck s => s == "tail escaped"
+  | _ => false
+
+@[simp] theorem Res.isEsc_val (v) : (Res.val v).isEsc = false := rfl
+@[simp] theorem Res.isEsc_viol (v) : (Res.viol v).isEsc = false := rfl
+@[simp] theorem Res.isEsc_tail (v) : (Res.tail v).isEsc = false := rfl
+@[simp] theorem Res.isEsc_oof : Res.oof.isEsc = false := rfl
+@[simp] theorem Res.isEsc_stuck (s) : (Res.stuck s).isEsc = (s == "tail escaped") := rfl
+
+theorem esc_unbound (x : String) : ("unbound " ++ x == "tail escaped") = false := by
+  simp only [beq_eq_false_iff_ne, ne_eq]
+  intro h; have := congrArg String.toList h; simp at this
+theorem esc_prim (x : String) : ("prim " ++ x == "tail escaped") = false := by
+  simp only [beq_eq_false_iff_ne, ne_eq]
+  intro h; have := congrArg String.toList h; simp at this
+theorem esc_unknown (x : String) : ("unknown function " ++ x == "tail escaped") = false := by
+  simp only [beq_eq_false_iff_ne, ne_eq]
+  intro h; have := congrArg String.toList h; simp at this
+
+theorem prim_isEsc (f : String) (vs : List Val) : (prim f vs).isEsc = false := by
+  unfold prim
+  repeat' split
+  all_goals first | rfl | exact esc_prim _ | (simp; done)
+
+def exNoEsc {α : Type} : Except Res α → Prop
+  | .ok _ => True
+  | .error r => r.isEsc = false
+
+structure NoEscAt (n : Nat) (cfg : Cfg) : Prop where
+  eval : ∀ fr e tail st, (eval n cfg fr e tail st).1.isEsc = false
+  callNamed : ∀ fr f args tail st, (callNamed n cfg fr f args tail st).1.isEsc = false
+  builtin : ∀ fr f args tail st, (builtin n cfg fr f args tail st).1.isEsc = false
+  callVal : ∀ fr c args tail st, (callVal n cfg fr c args tail st).1.isEsc = false
+  evalList : ∀ fr es st, exNoEsc (evalList n cfg fr es st).1
+  mkClos : ∀ fr f st, (mkClos n cfg fr f st).1.isEsc = false
+  evalDflts : ∀ fr ps st, exNoEsc (evalDflts n cfg fr ps st).1
+  callUser : ∀ h c args st, (callUser n cfg h c args st).1.isEsc = false
+  tramp : ∀ h c args rec st, (tramp n cfg h c args rec st).1.isEsc = false
+  evalDecls : ∀ fr ds st, exNoEsc (evalDecls n cfg fr ds st).1
+
+theorem NoEscAt.evalList' {n cfg} (ih : NoEscAt n cfg) {fr es st r s}
+    (h : Core.evalList n cfg fr es st = (.error r, s)) : r.isEsc = false := by
+  have := ih.evalList fr es st; rw [h] at this; exact this
+theorem NoEscAt.evalDflts' {n cfg} (ih : NoEscAt n cfg) {fr es st r s}
+    (h : Core.evalDflts n cfg fr es st = (.error r, s)) : r.isEsc = false := by
+  have := ih.evalDflts fr es st; rw [h] at this; exact this
+theorem NoEscAt.evalDecls' {n cfg} (ih : NoEscAt n cfg) {fr es st r s}
+    (h : Core.evalDecls n cfg fr es st = (.error r, s)) : r.isEsc = false := by
+  have := ih.evalDecls fr es st; rw [h] at this; exact this
+theorem NoEscAt.eval' {n cfg} (ih : NoEscAt n cfg) {fr e tail st r s}
+    (h : Core.eval n cfg fr e tail st = (r, s)) : r.isEsc = false := by
+  have := ih.eval fr e tail st; rw [h] at this; exact this
+theorem NoEscAt.mkClos' {n cfg} (ih : NoEscAt n cfg) {fr f st r s}
+    (h : Core.mkClos n cfg fr f st = (r, s)) : r.isEsc = false := by
+  have := ih.mkClos fr f st; rw [h] at this; exact this
+
+theorem noEscAt (cfg : Cfg) (n : Nat) : NoEscAt n cfg := by
+  induction n with
+  | zero => constructor <;> intros <;> simp [eval, callNamed, builtin, callVal, evalList, mkClos, evalDflts, callUser, tramp, evalDecls, exNoEsc]
+  | succ n ih =>
+    have nt := noTailAt cfg n
+    constructor
+    case eval =>
+      intro fr e tail st
+      simp only [eval]
+      repeat' split
+      all_goals first
+        | rfl
+        | exact esc_unbound _
+        | exact ih.mkClos _ _ _
+        | exact ih.callVal _ _ _ _ _
+        | exact ih.callNamed _ _ _ _ _
+        | exact ih.eval _ _ _ _
+        | exact ih.evalList' (by assumption)
+        | exact (tail_contra (by assumption) (nt.eval _ _ false _ (by simp))).elim
+    case callNamed =>
+      intro fr f args tail st
+      simp only [callNamed]
+      repeat' split
+      all_goals first
+        | exact ih.callVal _ _ _ _ _
+        | exact ih.builtin _ _ _ _ _
+    case builtin =>
+      intro fr f args tail st
+      simp only [builtin]
+      repeat' split
+      all_goals first
+        | rfl
+        | exact esc_unknown _
+        | exact prim_isEsc _ _
+        | exact ih.eval _ _ _ _
+        | exact ih.evalList' (by assumption)
+        | exact (tail_contra (by assumption) (nt.eval _ _ false _ (by simp))).elim
+    case callVal =>
+      intro fr c args tail st
+      simp only [callVal]
+      repeat' split
+      all_goals first
+        | rfl
+        | exact ih.callUser _ _ _ _
+        | exact ih.evalList' (by assumption)
+    case evalList =>
+      intro fr es st
+      simp only [evalList]
+      repeat' split
+      all_goals first
+        | trivial
+        | exact ih.evalList _ _ _
+        | exact (tail_contra (by assumption) (nt.eval _ _ false _ (by simp))).elim
+        | exact ih.eval' (by assumption)
+    case mkClos =>
+      intro fr f st
+      simp only [mkClos]
+      repeat' split
+      all_goals first
+        | rfl
+        | exact ih.evalDflts' (by assumption)
+    case evalDflts =>
+      intro fr ps st
+      simp only [evalDflts]
+      repeat' split
+      all_goals first
+        | trivial
+        | exact ih.evalDflts _ _ _
+        | exact (tail_contra (by assumption) (nt.eval _ _ false _ (by simp))).elim
+        | exact ih.eval' (by assumption)
+    case callUser =>
+      intro h c args st
+      simp only [callUser]
+      repeat' split
+      all_goals first
+        | rfl
+        | exact ih.tramp _ _ _ _ _
+    case tramp =>
+      intro h c args rec st
+      simp only [tramp]
+      repeat' split
+      all_goals first
+        | rfl
+        | exact ih.tramp _ _ _ _ _
+        | exact ih.eval _ _ _ _
+        | exact ih.evalDecls' (by assumption)
+    case evalDecls =>
+      intro fr ds st
+      simp only [evalDecls]
+      repeat' split
+      all_goals first
+        | trivial
+        | exact ih.evalDecls _ _ _
+        | exact (tail_contra (by assumption) (nt.eval _ _ false _ (by simp))).elim
+        | exact (tail_contra (by assumption) (nt.mkClos _ _ _)).elim
+        | exact ih.eval' (by assumption)
+        | exact ih.mkClos' (by assumption)
+
+
 /-! ### fuel monotonicity -/
 
 def Res.isOof : Res → Bool
